@@ -104,6 +104,9 @@ pub fn run(ctx: &mut Ctx) {
     // histories over one dictionary column, compared with the dictionary builder model: repeated and new
     // strings, everything with a to_string, nulls, Option / newtype layers, builds (also empty and repeated)
     dict_stream(ctx);
+    // histories over one dense union column (Null, Boolean, integer, string, list and struct variants), compared
+    // with the union builder model: type ids, offsets per variant, reset at every build
+    union_stream(ctx);
 }
 
 fn dict_stream(ctx: &mut Ctx) {
@@ -150,6 +153,67 @@ fn dict_stream(ctx: &mut Ctx) {
         let ops_coq = cf::list(&ops, |o| match o { Some(v) => format!("(DPush {})", arrgen::val_coq(v)), None => "DBuild".into() });
         let coq = format!("(CDict {} {} {} {} {})", kname, if large { "BLargeUtf8" } else { "BUtf8" }, cf::boolean(nullable), ops_coq, res.coq(|a| cf::list(a, arrgen::array_coq)));
         let desc = json!({"dictionary_history": h, "field": format!("{:?}", field), "ops": format!("{:?}", ops), "impl": match &res { Out::Ok(a) => format!("{:?}", a), Out::Err(e) => format!("Err({})", e), Out::Panic(p) => format!("Panic({})", p) }});
+        let idx = ctx.add_case(coq, desc, true);
+        if let Out::Panic(p) = &res { ctx.fail(idx, "panic", p.clone()); }
+    }
+}
+
+fn union_stream(ctx: &mut Ctx) {
+    use crate::arrgen::IK;
+    use marrow::datatypes::{DataType, Field, UnionMode};
+    let mk = |n: &str, dt: DataType, nl: bool| Field { name: n.into(), data_type: dt, nullable: nl, metadata: Default::default() };
+    let n = if ctx.thorough { 4000 } else { 400 };
+    for h in 0..n {
+        let mut rng = ctx.rng.fork();
+        // 1-4 variants: Null, Boolean, integers, strings, lists, structs (the kinds of the builder model)
+        let nv = 1 + rng.below(4);
+        let variants: Vec<Field> = (0..nv).map(|i| {
+            let nl = rng.chance(1, 2);
+            let name = format!("V{}", i);
+            match rng.below(7) {
+                0 | 1 => mk(&name, DataType::Null, true),
+                2 => mk(&name, DataType::Boolean, nl), 3 => mk(&name, rng.pick(&[DataType::Int8, DataType::Int32, DataType::UInt64]).clone(), nl),
+                4 => mk(&name, if rng.chance(1, 2) { DataType::Utf8 } else { DataType::LargeUtf8 }, nl),
+                5 => mk(&name, DataType::List(Box::new(mk("element", DataType::Int16, true))), nl),
+                _ => mk(&name, DataType::Struct(vec![mk("a", DataType::Int32, false), mk("b", DataType::Utf8, true)]), nl),
+            } }).collect();
+        let field = mk("c", DataType::Union(variants.iter().enumerate().map(|(i, f)| (i as i8, f.clone())).collect(), UnionMode::Dense), false);
+        let payload = |rng: &mut crate::rng::Rng, i: usize, f: &Field| -> Val {
+            let name = f.name.clone();
+            match &f.data_type {
+                DataType::Null => match rng.below(3) { 0 => Val::UnitVariant(i as u32, name), 1 => Val::NewtypeVariant(i as u32, name, Box::new(Val::None)), _ => Val::NewtypeVariant(i as u32, name, Box::new(Val::Unit)) },
+                DataType::Boolean => Val::NewtypeVariant(i as u32, name, Box::new(if f.nullable && rng.chance(1, 4) { Val::None } else { Val::Bool(rng.chance(1, 2)) })),
+                DataType::Int8 | DataType::Int32 | DataType::UInt64 => Val::NewtypeVariant(i as u32, name, Box::new(if f.nullable && rng.chance(1, 4) { Val::None } else { Val::Int(IK::I8, rng.below(100) as i128) })),
+                DataType::Utf8 | DataType::LargeUtf8 => if f.nullable && rng.chance(1, 5) { Val::UnitVariant(i as u32, name) } else { Val::NewtypeVariant(i as u32, name, Box::new(Val::Str((*rng.pick(&["", "a", "héllo"])).to_string()))) },
+                DataType::List(_) => { let items: Vec<Val> = (0..rng.below(3)).map(|k| if k == 1 { Val::None } else { Val::Int(IK::I16, 300) }).collect(); if rng.chance(1, 2) { Val::TupleVariant(i as u32, name, items) } else { Val::NewtypeVariant(i as u32, name, Box::new(Val::Seq(items))) } }
+                _ => match rng.below(3) { 0 => Val::StructVariant(i as u32, name, vec![("b".into(), Val::Str("s".into())), ("a".into(), Val::Int(IK::I32, 5))]), 1 => Val::StructVariant(i as u32, name, vec![("a".into(), Val::Int(IK::I32, -1))]), _ => Val::TupleVariant(i as u32, name, vec![Val::Int(IK::I32, 2), Val::None]) },
+            }
+        };
+        let nops = 2 + rng.below(14);
+        let mut ops: Vec<Option<Val>> = vec![];
+        for _ in 0..nops {
+            if rng.chance(1, 4) { ops.push(None); continue; }
+            let i = rng.below(nv);
+            // now and then a variant index the union does not have
+            if rng.chance(1, 40) { ops.push(Some(Val::UnitVariant(nv as u32, "X".into()))); continue; }
+            ops.push(Some(payload(&mut rng, i, &variants[i])));
+        }
+        ops.push(None);
+        let res = guarded(|| -> Result<Vec<Array>, String> {
+            let mut builder = ArrayBuilder::from_marrow(std::slice::from_ref(&field)).map_err(|e| e.to_string())?;
+            let mut outs = vec![];
+            for op in &ops {
+                match op {
+                    Some(v) => builder.push(&Val::Struct(vec![("c".into(), v.clone())], 0)).map_err(|e| e.to_string())?,
+                    None => { let mut a = builder.to_marrow().map_err(|e| e.to_string())?; outs.push(a.remove(0)); }
+                }
+            }
+            Ok(outs)
+        });
+        ctx.count(&format!("union_history:{}", res.class()));
+        let ops_coq = cf::list(&ops, |o| match o { Some(v) => format!("(UPush {})", arrgen::val_coq(v)), None => "UBuild".into() });
+        let coq = format!("(CUnion {} {} {})", cf::list(&variants, arrgen::field_coq), ops_coq, res.coq(|a| cf::list(a, arrgen::array_coq)));
+        let desc = json!({"union_history": h, "field": format!("{:?}", field), "ops": format!("{:?}", ops), "impl": match &res { Out::Ok(a) => format!("{:?}", a), Out::Err(e) => format!("Err({})", e), Out::Panic(p) => format!("Panic({})", p) }});
         let idx = ctx.add_case(coq, desc, true);
         if let Out::Panic(p) = &res { ctx.fail(idx, "panic", p.clone()); }
     }
